@@ -24,6 +24,10 @@ def scenarios(rng, P, quick):
         dict(name="output-file", tree={b"f": ("f", A, 0o644), b"p.diff": ("f", u, 0o644)}, argv=[b"-o", b"out", b"-i", b"p.diff"]),
         dict(name="two-files", tree={b"f": ("f", A, 0o644), b"g": ("f", A, 0o644), b"p.diff": ("f", u + emit.unified_text(gen.make_hunks(a, b, 2), b"g", b"g"), 0o644)}, argv=[b"-i", b"p.diff"]),
     ]
+    # a removal patch (new name /dev/null) whose target holds more than the patch removes: "Not deleting file ... as content differs"
+    left = a + [(b"left over", "L")]
+    cs.append(dict(name="delete-leftover", tree={b"f": ("f", gen.render(left, "keep"), 0o644),
+                                                  b"p.diff": ("f", emit.unified_text(gen.make_hunks(a, [], 3), b"f", b"/dev/null", b"", b""), 0o644)}, argv=[b"-i", b"p.diff"]))
     # a target and a patch larger than one stdio buffer (4096 bytes), the buffer boundary falling inside a line
     big = [(b"line %04d of a file that is larger than one stdio buffer" % i, "L") for i in range(300)]
     bigb = big[:150] + [(b"changed in the middle", "L")] + big[151:]
